@@ -245,6 +245,19 @@ func (fr *Frame) execInstr(ins ssa.Instruction, pc string, st *State) string {
 			fr.vals[x] = []string{vc.fresh(fr.prefix+x.Name(), d.sortOf(x.Type()))}
 		}
 	case *ssa.ChangeType:
+		if ss, ok := x.X.Type().Underlying().(*types.Struct); ok && d.sortOf(x.X.Type()) != d.sortOf(x.Type()) {
+			// conversion between two named struct types with identical underlying types: the value is rebuilt field by
+			// field in the datatype of the target type
+			if ts, ok := x.Type().Underlying().(*types.Struct); ok && ts.NumFields() == ss.NumFields() {
+				src := fr.v1(x.X)
+				var fs []string
+				for i := 0; i < ss.NumFields(); i++ {
+					fs = append(fs, fmt.Sprintf("(%s %s)", d.fieldSel(x.X.Type(), i), src))
+				}
+				fr.vals[x] = []string{vc.define(fr.prefix+x.Name(), d.sortOf(x.Type()), fmt.Sprintf("(%s %s)", d.structCtor(x.Type()), strings.Join(fs, " ")))}
+				break
+			}
+		}
 		fr.vals[x] = []string{fr.v1(x.X)}
 		if mc, ok := fr.closures[x.X]; ok {
 			fr.closures[x] = mc
